@@ -270,6 +270,7 @@ type bWorld struct {
 	pendingFallback bool
 	fallbackEver    bool
 	syncStreak      int
+	warmup          bool
 	items           map[string]*bItem
 	uses            map[string]int
 	stats           []string
@@ -920,8 +921,8 @@ func (w *bWorld) tick(op BOp) (enabled bool) {
 		}
 	}
 	flagged := false
-	cmN, err := w.N.c.StepX(env.BlockSpec{Txs: txN, Proposer: kV, Results: w.nResults(op.Kind == "fallback", &flagged)},
-		env.StepOpts{RootDex: jsonTrip(w.rootSnap), Committee: &vs,
+	cmN, err := w.N.c.StepFast(env.BlockSpec{Txs: txN, Proposer: kV, Results: w.nResults(op.Kind == "fallback", &flagged)},
+		&env.StepOpts{RootDex: jsonTrip(w.rootSnap), Committee: &vs,
 			View: &lib.View{NetworkId: env.NetworkID, ChainId: 2, Height: w.N.c.Height(), RootHeight: rootH, Phase: lib.Phase_PRECOMMIT_VOTE}})
 	if err != nil {
 		w.bad("nested-block-failed", "N's block could not be produced: "+err.Error())
@@ -937,6 +938,9 @@ func (w *bWorld) tick(op BOp) (enabled bool) {
 	}
 	an := scanB(w.N)
 	w.analyze(&bBlockCtx{ch: w.N, before: sn, after: an, cm: cmN, user: user, delivered: deliveredN, fallbackExec: fallbackExec})
+	if w.warmup {
+		return true
+	}
 	// ---------------- R block
 	var certTx []byte
 	var deliveredR *lib.DexBatch
@@ -950,7 +954,7 @@ func (w *bWorld) tick(op BOp) (enabled bool) {
 		w.bad("harness-error", "prime cache: "+err.Error())
 		return true
 	}
-	cmR, err := w.R.c.Step(env.BlockSpec{Txs: txR, Proposer: kV})
+	cmR, err := w.R.c.StepFast(env.BlockSpec{Txs: txR, Proposer: kV}, nil)
 	if err != nil {
 		w.bad("root-block-failed", "R's block could not be produced: "+err.Error())
 		return true
@@ -1023,6 +1027,11 @@ func (w *bWorld) key() string {
 	return sb.String()
 }
 
+// Debug makes ExecB print every step (probe / replay use).
+var Debug = false
+
+func indent(s string) string { return "      " + strings.ReplaceAll(strings.TrimRight(s, "\n"), "\n", "\n      ") + "\n" }
+
 // ExecB replays one recipe path of part B on a fresh pair of chains.
 func ExecB(cfgName string, thorough bool, path []int) (res mc.ExecResult) {
 	alpha := BAlphabet(thorough)
@@ -1034,7 +1043,9 @@ func ExecB(cfgName string, thorough bool, path []int) (res mc.ExecResult) {
 	defer w.close()
 	// warm-up: N's first block (BeginBlock does nothing at height 1) so that recipes start with an open gate
 	w.names, w.path = []string{"(warm-up)"}, nil
+	w.warmup = true
 	w.tick(BOp{Kind: "tick"})
+	w.warmup = false
 	if len(w.viols) > 0 {
 		res.Viols = w.viols
 		return
@@ -1047,7 +1058,14 @@ func ExecB(cfgName string, thorough bool, path []int) (res mc.ExecResult) {
 		w.path = path[:i+1]
 		w.viols, w.stats = nil, nil
 		prevKey = w.key()
-		if !w.tick(alpha[oi]) {
+		en := w.tick(alpha[oi])
+		if Debug {
+			fmt.Printf("  step %d %s enabled=%v stats=%v viols=%d\n", i, alpha[oi], en, w.stats, len(w.viols))
+			if en {
+				fmt.Print(indent(w.key()))
+			}
+		}
+		if !en {
 			return
 		}
 		if len(w.viols) > 0 && i < len(path)-1 {
